@@ -26,6 +26,8 @@ Plan gen_lz4c(u64 seed); void run_lz4c(const Plan &p);
 Plan gen_conc(u64 seed); void run_conc(const Plan &p);
 Plan gen_concneg(u64 seed); void run_concneg(const Plan &p);
 Plan gen_fuzzreg(u64 index);
+Plan gen_synth(u64 seed);
+void silf_override(Store &st, const Fault &f);
 size_t fuzzreg_count();
 void feat_override(Store &st, const Fault &f);
 void lz4_override(Store &st, const Fault &f);
